@@ -261,8 +261,13 @@ func (c *diskCache) Put(ctx context.Context, kind cache.EntryKind, hash string, 
 		// But refuse data that was declared to be the empty blob.
 		if r != nil {
 			var b [1]byte
-			if n, _ := io.ReadFull(r, b[:]); n > 0 {
+			n, err := io.ReadFull(r, b[:])
+			if n > 0 {
 				return badReqErr("Received data for the empty blob")
+			}
+			if err != io.EOF {
+				// E.g. a compressed stream that cannot be decoded.
+				return internalErr(err)
 			}
 		}
 		return nil
